@@ -1,10 +1,9 @@
 (* Props/C08.v — property C08: rendering is compositional.  Statements only;
-   proofs in Proofs/Frame.v; `restored` is in Spec/RenderFrameSpec.v.
-
-   FALSE of the model (findings F3, F4): the partial-block depth and the
-   current template name are not restored: C08_refuted_depth,
-   C08_refuted_current_template. *)
-From HB Require Import Reg.RegOps Spec.RenderFrameSpec Proofs.Frame.
+   proofs in Proofs/Frame.v (and Proofs/FrameFlags.v for the write flags);
+   `restored` and `flags_only` are in Spec/RenderFrameSpec.v.  Since the repair
+   of F3 and F4 `restored` includes the partial-block depth and the current
+   template name. *)
+From HB Require Import Reg.RegOps Spec.RenderFrameSpec Proofs.Frame Proofs.FrameFlags.
 
 (* render_app: the element fold splits anywhere *)
 Theorem C08_fold_app : forall {A} (step : A -> nat -> rstate -> rres unit) (l1 l2 : list A) i s,
@@ -19,27 +18,34 @@ Theorem C08_render_app : forall reg data ft f name A B mp s,
                                             (attach_render (MkT name (A ++ B) mp) idx))
                   A 0%nat (set_current s name))
         (fun _ s1 =>
-           fold_idx (fun e idx s' => rmap_err (render_element reg data ft f e s')
-                                              (attach_render (MkT name (A ++ B) mp) idx))
-                    B (List.length A) s1).
+           rbind (fold_idx (fun e idx s' => rmap_err (render_element reg data ft f e s')
+                                                     (attach_render (MkT name (A ++ B) mp) idx))
+                           B (List.length A) s1)
+                 (fun _ s' => ROk tt (set_current s' (s_current s)))).
 Proof. exact render_app. Qed.
 Print Assumptions C08_render_app.
 
-(* rendering A ++ B succeeds exactly when A succeeds and then B's elements
-   succeed from the state A left (the position maps only decorate errors) *)
+(* rendering A ++ B succeeds exactly when A's elements succeed and then B's
+   elements succeed from the state A left (the position maps only decorate
+   errors); at the end the caller's template name is put back *)
 Theorem C08_render_app_ok : forall reg data ft f name A B mp mpA mpB s s',
   render_template reg data ft (S f) (MkT name (A ++ B) mp) s = ROk tt s' <->
-  exists s1, render_template reg data ft (S f) (MkT name A mpA) s = ROk tt s1 /\
-             fold_idx (fun e idx s' => rmap_err (render_element reg data ft f e s')
-                                                (attach_render (MkT name B mpB) idx))
-                      B 0%nat s1 = ROk tt s'.
+  exists s1 s2,
+    fold_idx (fun e idx s' => rmap_err (render_element reg data ft f e s')
+                                       (attach_render (MkT name A mpA) idx))
+             A 0%nat (set_current s name) = ROk tt s1 /\
+    fold_idx (fun e idx s' => rmap_err (render_element reg data ft f e s')
+                                       (attach_render (MkT name B mpB) idx))
+             B 0%nat s1 = ROk tt s2 /\
+    s' = set_current s2 (s_current s).
 Proof. exact render_app_ok. Qed.
 Print Assumptions C08_render_app_ok.
 
 (* frame: a finished element (block, partial, partial block, triple-brace
-   expression, ...) leaves the block stack, the partial-block stack, the
-   indent string, the root name and the dev templates as they were, and can
-   only clear the escape toggle *)
+   expression, ...) leaves the block stack, the partial-block stack and depth
+   (the @partial-block binding), the current template name, the indent string,
+   the root name and the dev templates as they were, and can only clear the
+   escape toggle *)
 Theorem C08_frame : forall reg data ft fuel e s s',
   render_element reg data ft fuel e s = ROk tt s' -> restored s s'.
 Proof. exact frame_element. Qed.
@@ -48,7 +54,8 @@ Print Assumptions C08_frame.
 Theorem C08_frame_eq : forall reg data ft fuel e s s',
   s_disable_escape s = false ->
   render_element reg data ft fuel e s = ROk tt s' ->
-  s_blocks s' = s_blocks s /\ s_pb_stack s' = s_pb_stack s /\ s_indent s' = s_indent s /\
+  s_blocks s' = s_blocks s /\ s_pb_stack s' = s_pb_stack s /\ s_pb_depth s' = s_pb_depth s /\
+  s_current s' = s_current s /\ s_indent s' = s_indent s /\
   s_root s' = s_root s /\ s_dev s' = s_dev s /\ s_disable_escape s' = s_disable_escape s.
 Proof. exact frame_element_eq. Qed.
 Print Assumptions C08_frame_eq.
@@ -58,24 +65,90 @@ Theorem C08_frame_template : forall reg data ft fuel t s s',
 Proof. exact frame_template. Qed.
 Print Assumptions C08_frame_template.
 
-(* F3: p = {{> @partial-block}}, m = {{#> p}}D{{/p}}: after the single
-   partial-block element of m has finished (output D) the depth has changed *)
-Theorem C08_refuted_depth :
-  exists reg data ft fuel t d s s',
-    t_els t = [ElPartBlock d] /\
-    render_template reg data ft fuel t s = ROk tt s' /\
-    out_text (s_out s') = `"D" /\
-    s_pb_depth s' <> s_pb_depth s.
-Proof. exact refuted_depth. Qed.
-Print Assumptions C08_refuted_depth.
+(* a run of sibling elements: the state between any two of them is `restored`
+   with respect to the state before the first *)
+Theorem C08_frame_elements : forall reg data ft f (g : nat -> rerror -> rerror) l i s s',
+  fold_idx (fun e idx s' => rmap_err (render_element reg data ft f e s') (g idx)) l i s = ROk tt s' ->
+  restored s s'.
+Proof. exact frame_elements. Qed.
+Print Assumptions C08_frame_elements.
 
-(* F4: inside the template named t = {{#if true}}x{{/if}}, after the block
-   element has finished the current template name is None *)
-Theorem C08_refuted_current_template :
-  exists reg data ft fuel t e s s',
-    t_name t = Some (`"t") /\ t_els t = [e] /\ s_current s = t_name t /\
-    render_element reg data ft fuel e s = ROk tt s' /\
-    out_text (s_out s') = `"x" /\
-    s_current s' = None /\ s_current s' <> s_current s.
-Proof. exact refuted_current_template. Qed.
-Print Assumptions C08_refuted_current_template.
+(* in particular the @partial-block binding is unchanged *)
+Theorem C08_frame_partial_block : forall s s',
+  restored s s' -> get_partial s' PARTIAL_BLOCK = get_partial s PARTIAL_BLOCK.
+Proof. exact restored_partial_block. Qed.
+Print Assumptions C08_frame_partial_block.
+
+(* flags_irrelevant: with no indentation active (no_indent / flags_ready /
+   ni_map, Spec/RenderFrameSpec.v: no partial element of the template, of the
+   registry's templates or of the templates the state holds carries an indent,
+   and the indent string is None) and without the harness probe helper `state`
+   (whose purpose is to print the flags), the three "last write" flags
+   (trailing_newline, content_produced, indent_before_write) influence nothing
+   but themselves: two runs from states that differ only in these flags end
+   with the same value or the same error, the same writer content, log and
+   trace, and states that again differ only in these flags *)
+Theorem C08_flags_irrelevant : forall (reg : registry) (data : json) (ft : ftable),
+  ni_map (r_templates reg) -> (forall n, map_get (r_helpers reg) n <> Some HState) ->
+  forall fuel t s1 s2,
+    flags_only s1 s2 -> flags_ready s1 -> no_indent t ->
+    same_up_to_flags (render_template reg data ft fuel t s1) (render_template reg data ft fuel t s2).
+Proof. exact flags_irrelevant_template. Qed.
+Print Assumptions C08_flags_irrelevant.
+
+Theorem C08_flags_irrelevant_element : forall (reg : registry) (data : json) (ft : ftable),
+  ni_map (r_templates reg) -> (forall n, map_get (r_helpers reg) n <> Some HState) ->
+  forall fuel e s1 s2,
+    flags_only s1 s2 -> flags_ready s1 -> ni_element e = true ->
+    same_up_to_flags (render_element reg data ft fuel e s1) (render_element reg data ft fuel e s2).
+Proof. exact flags_irrelevant_element. Qed.
+Print Assumptions C08_flags_irrelevant_element.
+
+Theorem C08_flags_irrelevant_elements : forall (reg : registry) (data : json) (ft : ftable),
+  ni_map (r_templates reg) -> (forall n, map_get (r_helpers reg) n <> Some HState) ->
+  forall f (g : nat -> rerror -> rerror) l i s1 s2,
+    flags_only s1 s2 -> flags_ready s1 -> forallb ni_element l = true ->
+    same_up_to_flags (fold_idx (fun e idx s' => rmap_err (render_element reg data ft f e s') (g idx)) l i s1)
+                     (fold_idx (fun e idx s' => rmap_err (render_element reg data ft f e s') (g idx)) l i s2).
+Proof. exact flags_irrelevant_elements. Qed.
+Print Assumptions C08_flags_irrelevant_elements.
+
+(* the readiness is kept by a finished run of elements (inline partials and
+   local helpers that decorators add are again without indent / not `state`) *)
+Theorem C08_flags_ready_kept : forall (reg : registry) (data : json) (ft : ftable),
+  ni_map (r_templates reg) -> (forall n, map_get (r_helpers reg) n <> Some HState) ->
+  forall f (g : nat -> rerror -> rerror) l i s s',
+    flags_ready s -> forallb ni_element l = true ->
+    fold_idx (fun e idx s' => rmap_err (render_element reg data ft f e s') (g idx)) l i s = ROk tt s' ->
+    flags_ready s'.
+Proof. exact flags_ready_kept. Qed.
+Print Assumptions C08_flags_ready_kept.
+
+(* C08_concat, PARTIAL.  A, then a non-empty literal `bar`, then B, with no
+   indentation active: A's elements run from the entry state to s1, which is
+   `restored` (block stack, @partial-block binding, current name, indent, ...)
+   with respect to it; what B's elements then do is, up to the three flags,
+   what they do from s1 with only `bar` appended to the writer.  Hence
+   output (A ++ bar ++ B) = output A ++ bar ++ (what B appends from sb).
+   Missing for the full "each rendered alone against the same data": that
+   what B appends does not depend on the writer's earlier content, the log and
+   the ghost trace (writer-prefix independence, another group's theorem) and
+   on what decorators in A deliberately persist (the property excludes
+   decorators in the left operand). *)
+Theorem C08_concat_partial : forall (reg : registry) (data : json) (ft : ftable),
+  ni_map (r_templates reg) -> (forall n, map_get (r_helpers reg) n <> Some HState) ->
+  forall f name A bar B mp s s',
+    flags_ready s -> no_indent (MkT name (A ++ ElRaw bar :: B) mp) -> bar <> [] ->
+    render_template reg data ft (S (S f)) (MkT name (A ++ ElRaw bar :: B) mp) s = ROk tt s' ->
+    exists s1 sb s2,
+      fold_idx (fun e idx s' => rmap_err (render_element reg data ft (S f) e s')
+                                         (attach_render (MkT name A mp) idx))
+               A 0%nat (set_current s name) = ROk tt s1 /\
+      restored (set_current s name) s1 /\ flags_ready s1 /\
+      out_write bar s1 = ROk tt sb /\
+      fold_idx (fun e idx s' => rmap_err (render_element reg data ft (S f) e s')
+                                         (attach_render (MkT name (ElRaw bar :: B) mp) idx))
+               B 1%nat sb = ROk tt s2 /\
+      flags_only (set_current s2 (s_current s)) s'.
+Proof. exact concat_partial. Qed.
+Print Assumptions C08_concat_partial.
